@@ -35,7 +35,8 @@ KEYS = ["A", "B", "C", "D", "E", "F"]
 PRIMES = [2, 3, 5, 7, 11, 13, 17]
 
 CONFIGS = ["numeric", "numeric_cstr", "named", "named_cstr", "arrhenius", "arrhenius_unique", "arrhenius_param", "ramped_temp",
-           "create_named", "create_arrhenius", "create_named_cstr", "create_named_symbols", "reassign", "subst_vs_constants"]
+           "create_named", "create_arrhenius", "create_named_cstr", "create_named_symbols", "reassign", "subst_vs_constants",
+           "shared_expr", "unique_zero", "unique_zero_incl"]
 
 
 def gen_systems(tier, seed):
@@ -157,6 +158,26 @@ def build_case(rxs, config):
         kw["include_params"] = False
         binder = {("A%d" % i): int(a) for i, a in enumerate(A)}
         binder.update({("E%d" % i): int(e) for i, e in enumerate(E)})
+    elif config == "shared_expr":
+        # ONE rate-expression object shared by all reactions (same Arrhenius parameters, different reactants)
+        shared = MassAction(Arrhenius([int(A[0]), int(E[0])]))
+        params = [shared] * nr
+        kfun = lambda P: [int(A[0]) * sp.exp(-sp.Integer(int(E[0])) / P["temperature"]) for _ in range(nr)]  # noqa
+        expected_params = {"temperature"}
+    elif config in ("unique_zero", "unique_zero_incl"):
+        # unique keys with inlined defaults, some of them bound to ZERO at build time (a switched-off reaction / zero activation energy)
+        params = [MassAction(Arrhenius([int(a), int(e)], unique_keys=("A%d" % i, "E%d" % i))) for i, (a, e) in enumerate(zip(A, E))]
+        zero = {"A0": 0}
+        if nr > 1:
+            zero["E1"] = 0
+        kw["substitutions"] = dict(zero)
+        kw["include_params"] = config.endswith("_incl")
+        if kw["include_params"]:
+            kfun = lambda P: [(0 if i == 0 else int(A[i])) * sp.exp(-sp.Integer(0 if i == 1 else int(E[i])) / P["temperature"]) for i in range(nr)]  # noqa
+            expected_params = {"temperature"}
+        else:
+            kfun = lambda P: [(0 if i == 0 else P["A%d" % i]) * sp.exp(-(0 if i == 1 else P["E%d" % i]) / P["temperature"]) for i in range(nr)]  # noqa
+            expected_params = ({"temperature"} | {"A%d" % i for i in range(nr)} | {"E%d" % i for i in range(nr)}) - set(zero)
     elif config == "arrhenius_param":
         params = [ArrheniusParam(int(a), int(e)) for a, e in zip(A, E)]
         from chempy.kinetics.arrhenius import _get_R
@@ -326,10 +347,12 @@ def replay(rxs, config):
     pt = {}
     for i, s in enumerate(list(odesys.dep) + list(P.values())):
         pt[s] = sp.Rational(3 + 2 * i, 7 + i)
+    if "temperature" in P:
+        pt[P["temperature"]] = sp.Rational(2003, 2)  # keeps exp(-E/T) away from underflow
     for i, key in enumerate(keys):
         a = sp.N(odesys.exprs[i].subs(pt), 30)
         b = sp.N(sp.sympify(rhs[key]).subs(pt), 30)
-        if abs(a - b) > 1e-12 * max(1, abs(b)):
+        if abs(a - b) > sp.Float(10) ** -12 * max(abs(a), abs(b)):
             bad.append("d[%s]/dt: generated %s, N^T r gives %s" % (key, a, b))
     if extra is not None and "rate_exprs_cb" in extra and config != "ramped_temp":
         yv = [0.5 + 0.25 * i for i in range(len(keys))]
